@@ -8,10 +8,11 @@ from lib.core import cz, czl
 from harness import common, sess
 
 THEOREMS = ['C13_generator_range', 'C13_default_range', 'C13_fresh_number', 'C13_generators_only_advanced', 'C13_at_most_once',
-            'C13_attribution_sound', 'C13_store_keyed_invariant', 'C13_unmatched_attributes_nothing',
+            'C13_attribution_sound', 'C13_store_keyed_invariant', 'C13_unmatched_attributes_nothing', 'C13_other_type_leaves_request',
             'C13_no_keyerror', 'C13_nonvacuous']
 IMPORTS = ['AV.Model.Base', 'AV.Model.Seq']
 
+HANDLED_RESPONSES = (0x80000004, 0x80000015, 0x80000006, 0x80000009, 0x80000001, 0x80000002, 0x80000000)
 REQ_CMDS = [0x4, 0x15, 0x6, 0x9]           # submit_sm, enquire_link, unbind, bind_transceiver
 RESP_CMDS = [0x80000004, 0x80000015, 0x80000006, 0x80000009, 0x80000000, 0x80000001, 0x80000002,
              0x80000005, 0x80000003, 0x80000103]
@@ -219,6 +220,28 @@ def oracle(obs, mn, mx, history):
             return f'response seq {seq} attributed to request {gid} with seq {seq_of.get(gid)}'
         if not (cmd == 0x80000000 or compat.get(cmd_of[gid]) == cmd):
             return f'response command {cmd:#x} attributed to request {gid} of command {cmd_of[gid]:#x}'
+    # the matching itself, replayed from the history: a request stays outstanding until a response with its number AND a compatible
+    # command (or a generic_nack) arrives, it is dropped, or it expires - a response of another type does not use it up
+    outstanding = {}
+    pending_attr = list(obs['attributions'])
+    for e in history:
+        if e[0] == 'P' and e[1] in seq_of:
+            outstanding[seq_of[e[1]]] = e[1]
+        elif e[0] == 'X':
+            outstanding.pop(e[1], None)
+        elif e[0] == 'R':
+            _k, cmd, seq = e
+            gid = outstanding.get(seq)
+            if gid is None or cmd not in HANDLED_RESPONSES:
+                continue
+            if cmd == 0x80000000 or compat.get(cmd_of[gid]) == cmd:
+                del outstanding[seq]
+                if cmd_of[gid] == 4:
+                    if (cmd, seq, gid) in pending_attr:
+                        pending_attr.remove((cmd, seq, gid))
+                    else:
+                        return (f'the response {cmd:#x} with sequence number {seq} was not attributed to the outstanding submit_sm {gid} '
+                                f'(a response of another type with that number had arrived before?)')
     return None
 
 
